@@ -289,7 +289,9 @@ func (s *keystore) persistSize() error {
 // put stores the provided keys and returns the keys that weren't present
 // already in the keystore.
 func (s *keystore) put(ctx context.Context, keys []mh.Multihash) ([]mh.Multihash, error) {
-	seen := make(map[bit256.Key]struct{}, len(keys))
+	// bit256.Key wraps a pointer, so it cannot serve as a map key for
+	// deduplication; the multihash bytes identify the key just as well.
+	seen := make(map[string]struct{}, len(keys))
 	b, err := s.ds.Batch(ctx)
 	if err != nil {
 		return nil, err
@@ -297,11 +299,11 @@ func (s *keystore) put(ctx context.Context, keys []mh.Multihash) ([]mh.Multihash
 	newKeys := make([]mh.Multihash, 0, len(keys))
 
 	for _, h := range keys {
-		k := keyspace.MhToBit256(h)
-		if _, ok := seen[k]; ok {
+		if _, ok := seen[string(h)]; ok {
 			continue
 		}
-		seen[k] = struct{}{}
+		seen[string(h)] = struct{}{}
+		k := keyspace.MhToBit256(h)
 		dsk := dsKey(k, s.prefixBits)
 		ok, err := s.ds.Has(ctx, dsk)
 		if err != nil {
@@ -469,14 +471,14 @@ func (s *keystore) delete(ctx context.Context, keys []mh.Multihash) error {
 	if err != nil {
 		return err
 	}
-	seen := make(map[bit256.Key]struct{}, len(keys))
+	seen := make(map[string]struct{}, len(keys))
 	removedCount := 0
 	for _, h := range keys {
-		k := keyspace.MhToBit256(h)
-		if _, ok := seen[k]; ok {
+		if _, ok := seen[string(h)]; ok {
 			continue
 		}
-		seen[k] = struct{}{}
+		seen[string(h)] = struct{}{}
+		k := keyspace.MhToBit256(h)
 		dsk := dsKey(k, s.prefixBits)
 		ok, err := s.ds.Has(ctx, dsk)
 		if err != nil {
